@@ -24,8 +24,10 @@ REVERSED_FIXES = {
     "D01_cusum_stale_index": ["C04", "C02"], "D02_hdm_lambda": ["C02", "C07"], "D03_adwinacc_typeerror": ["C03", "C01", "C16"],
     "D04_adwinacc_ctor": ["C03"], "D05_nnsp_split": ["C10", "C18"], "D06_kdq_persistence": ["C09"], "D07_pcacd_noscale": ["C11"],
     "D08_pcacd_bounds": ["C11"], "D10b_univariate_guard": ["C14"], "D11_injector_dict": ["C15"], "D12_adwin_empty_rows": ["C03"],
-    "D13_cdbd_list_input": ["C14"], "D14_hdm_proxy_names": ["C14"], "D15_hdm_reference_labels": ["C14"],
+    "D13_cdbd_list_input": ["C14"], "D14_hdm_proxy_names": ["C14"], "D15_hdm_reference_labels": ["C14"], "D16_md3_label_column_order": ["C19"],
 }
+# seeded changes that also break a neighbouring property whose check sees them far more reliably
+EXTRA_CHECKS = {"C17-m1": ["C09"]}
 # (file, old, new, replace-all?, checks)
 HAND = {
     "H01_df_view": ("menelaus/detector.py", "ary = X.values.copy()", "ary = X.values", True, ["C15"]),
@@ -79,7 +81,7 @@ def main():
     for d in sorted(glob.glob(os.path.join(HERE, "seeded", "[CF][0-9][0-9]-*"))):
         name = os.path.basename(d)
         if name.startswith("C"):
-            checks = [name[:3]]
+            checks = [name[:3]] + EXTRA_CHECKS.get(name, [])
         else:   # per-file round: the properties the author says it breaks
             try:
                 m = json.load(open(os.path.join(d, "meta.json")))
